@@ -9,6 +9,9 @@ Abstract values (small JSON):
   layout ::= 'C' | 'F' | 'S' (every other item of the last axis of a larger array) | 'R' (reversed view)
   key    ::= ['i', z] | ['s', str]
   cell   ::= ['none'] | ['int', z] | ['float', tok] | ['str', s]
+  edge   ::= {'what': 'json_missing' | 'json_empty' | 'tsv_missing' | 'simple_missing' | 'python_missing'}
+           | {'what': 'tsv_no_rows', 'delim', 'first', 'excl', 'n'} | {'what': 'bigint', 'w': 0..4, 'neg': b, 'extra': k}
+             (inputs outside the statement: compared with the model only, code 1)
 """
 import itertools
 import math
@@ -24,7 +27,9 @@ RULE = ('corpus of boundary cases (minimal inputs of the three repaired defects:
         'ties of the %.4f rounding, white space around numbers); exhaustive small scopes: every dtype x byte order x '
         '16 shapes x every memory layout (C, F, strided, reversed) for save_json/load_json, every list of <= 2 rows '
         'over 2 fields x 5 cell kinds x both delimiters x first_field for write_tsv/read_tsv, every string of '
-        'length <= 3 (quick) / 4 (thorough) over a 14-character numeric alphabet for _try_make_number; '
+        'length <= 3 (quick) / 4 (thorough) over a 14-character numeric alphabet for _try_make_number; integer '
+        'literals of 4300 / 4301 digits (int_max_str_digits); edge inputs outside the statement (missing path, '
+        'empty file, table without rows, integer beyond the limit) compared with the model only; '
         'then a seeded random stream of nested dictionaries (depth <= 3), tables over 4-6 fields, '
         'two-column cluster tables and parameter dictionaries. Non-trivial = a dictionary holding an '
         'array, NumPy scalar or nested container / a table with a non-empty row / a non-empty '
@@ -40,7 +45,8 @@ CLAUSES = {
     25: 'C18_tsv (the requested first column comes first)',
     26: 'C18_tsv_simple (two-column cluster table reads back: field name, ids, values)',
     27: 'C18_python (parameter file reads back equal)',
-    28: 'C18_int_text / C18_float_text / C18_nonnumeric (_try_make_number: int, float, unchanged text)',
+    28: 'C18_int_text / C18_float_text / C18_nonnumeric / C18_int_limit (_try_make_number: int within '
+        'int_max_str_digits, float, unchanged text)',
 }
 TRUSTED = ['oracles of the theorems (universally quantified records; hypotheses Codec_OK / Text_OK / Csv_OK of '
            'C18/Spec.v; shown satisfiable by the reference oracles, C18_oracles_satisfiable): the JSON text layer '
@@ -50,13 +56,17 @@ TRUSTED = ['oracles of the theorems (universally quantified records; hypotheses 
            'np.dtype(name) as tabulated), the csv text layer (reading with the writing delimiter returns the written '
            'cells, cells without NUL/CR/LF; the first line contains a tab iff delimiter is tab with >= 2 header '
            'cells or a header cell contains a tab)',
-           'abstract constructors of the model: repr(float) in a csv cell reads back as that float and is rejected '
-           'by int(); str() of a non-str parameter value evaluates (exec) to an equal value for None/bool/int/finite '
-           'float and lists/dicts of plain values; the line structure of the exec-ed file',
+           'repr(float) / float() as an oracle pair (record floatlayer, hypothesis Float_OK: the text of repr(x) is a '
+           'float literal of the transcribed grammar whose correctly rounded value is x, int() rejects it, float '
+           'characters only; satisfied by the reference pair = exact decimal expansion + exact conversion); the line '
+           'structure of the exec-ed parameter file (one `k = text` per item; no text has a raw line break: '
+           'C18_python_rhs_one_line)',
            "C printf '%.nf' being the exact round-half-even decimal and float(str) being correctly rounded "
            '(the observed float is compared with the exact decimal of the model by the rational half-ulp test near_dec)',
-           'int()/float()/str(int)/repr(str)/string-literal evaluation are MODELLED on characters (ASCII; bytes >= 128 '
-           'of UTF-8 text are copied); the models are tied to CPython by the number and python cases of the correspondence']
+           'int()/float()/str(int)/repr(str)/repr of None, bool, int, list, dict/the evaluation of these texts are '
+           'MODELLED on characters (ASCII; bytes >= 128 of UTF-8 text are copied); the models are tied to CPython by '
+           'the number and python cases of the correspondence',
+           'CPython int_max_str_digits = 4300 (sys.get_int_max_str_digits() of the interpreter that runs phylib)']
 ASSUMES = ['top-level keys: integers (any sign) and strings that are not optionally-signed digit strings; nested '
            'dictionaries have string keys; the marker keys __ndarray__ / __qbytearray__ are reserved; a dict is '
            'represented by its key-sorted association list (dict equality cannot see insertion order)',
@@ -66,7 +76,8 @@ ASSUMES = ['top-level keys: integers (any sign) and strings that are not optiona
            'non-empty, rejected by both int() and float(), without NUL / CR / LF (printable ASCII and tab in the '
            'correspondence)',
            'parameter files: keys are lower-case ASCII identifiers that are not keywords; values are None, bool, int, '
-           'finite float, str (any characters) and lists / string-keyed dicts of these']
+           'finite float, str (any characters) and lists / string-keyed dicts of these',
+           'every integer (key, value, cell, id) has at most 4300 decimal digits (|z| < 10^4300, the guard of C18_int_limit)']
 TIMEOUT = {'quick': 60, 'thorough': 120}   # generous: the first case of a worker pays the imports on a busy machine
 
 INF = float('inf')
@@ -323,6 +334,17 @@ NUM_CORPUS = ['1_0', ' 12 ', '+3', '1e5', 'Infinity', '-nan', '1_', '_1', '1__0'
               '\n12', '1\x0b', '\x0c1.5\r', '\r\n-7\t ', '1\n2', ' \x0b', '+ 1', '1 .5', 'nan\n', '\tinf', '1e 5']
 
 
+LIMIT = 4300
+NUM_LIMIT = ['1' * LIMIT, '1' * (LIMIT + 1), '0' * (LIMIT + 1), '-' + '9' * LIMIT, '-' + '1' * (LIMIT + 1),
+             '1_' * (LIMIT - 1) + '1', '1_' * LIMIT + '1', ' ' + '7' * LIMIT + '\n', '1' * (LIMIT + 1) + '.5',
+             '1' * (LIMIT + 1) + 'e5', '1' * (LIMIT + 1) + 'x', '9' * 309, '9' * 310, '1' + '0' * 308, '-1' + '0' * 309,
+             '1e309', '-1e309', '1.7976931348623157e308', '1.7976931348623159e308', '-Infinity', '9' * 309 + '.0']
+EDGES = ([{'what': w} for w in ('json_missing', 'json_empty', 'tsv_missing', 'simple_missing', 'python_missing')] +
+         [{'what': 'tsv_no_rows', 'delim': dl, 'first': f, 'excl': ex, 'n': n}
+          for dl, f, ex, n in (('tab', None, [], 4), ('comma', None, [], 4), ('tab', 'a', ['b'], 2), ('comma', 'zz', [], 6))] +
+         [{'what': 'bigint', 'w': w, 'neg': bool(w % 2), 'extra': 7 * w} for w in range(5)])
+
+
 def generate(tier, rng):
     cases = []
     A = lambda dt, shape, lay, el: ['arr', dt, shape, lay, el]
@@ -362,8 +384,20 @@ def generate(tier, rng):
     cases.append({'kind': 'python', 'inp': {'items': [
         ['dat_path', ['list', [['str', 'a.dat'], ['str', 'b "c".dat']]]], ['n_channels_dat', ['int', 384]],
         ['sample_rate', ['float', ftok(30000.0)]], ['hp_filtered', ['bool', False]], ['offset', ['none']]]}})
-    for s in NUM_CORPUS:
+    # the 4300-digit literals cost 1-3 s each in the comparator: three of them in the quick tier
+    for s in NUM_CORPUS + (NUM_LIMIT[:3] + NUM_LIMIT[11:] if tier == 'quick' else NUM_LIMIT):
         cases.append({'kind': 'number', 'inp': {'s': s}})
+    for e in EDGES:
+        cases.append({'kind': 'edge', 'inp': e})
+    # parameter values whose text is modelled on characters: exponent / fixed notation of repr(float), signs,
+    # nesting, empty containers, quotes inside containers
+    cases.append({'kind': 'python', 'inp': {'items': [
+        ['a', ['list', [['float', ftok(x)] for x in (1e16, 1e15, 1e22, 1.5e-7, 1e-5, 0.0001, 0.1, -0.0, 5e-324,
+                                                      1.7976931348623157e308, 123456789012345678.0, -2.5, 100.0)]]],
+        ['b1', ['dict', [['k', ['list', [['int', -1], ['bool', True], ['list', []], ['dict', []], ['none']]]],
+                         ["x'y", ['str', 'he said "hi"']], ['q"', ['str', "it's"]], ['', ['float', ftok(-1.5)]]]]],
+        ['_x', ['list', [['list', [['list', [['int', 0], ['int', -0]]]]], ['str', ''], ['str', 'a, b]'], ['int', 10 ** 30]]]],
+        ['offset', ['int', -(2 ** 70)]], ['nan', ['float', ftok(1e300)]]]}})
 
     if tier == 'search':
         for _ in range(4000):
@@ -608,6 +642,8 @@ def _run_case(case):
         return ('number', _cell_canon(np, _try_make_number(i['s'])))
     d = _tmp()
     try:
+        if k == 'edge':
+            return _run_edge(np, i, d)
         if k == 'json':
             from phylib.utils._misc import save_json, load_json
             items = list(reversed(i['items'])) if i.get('reverse') else i['items']
@@ -654,6 +690,54 @@ def _run_case(case):
     finally:
         shutil.rmtree(d, ignore_errors=True)
     raise ValueError(k)
+
+
+def _run_edge(np, i, d):
+    from phylib.utils import _misc as m
+    w = i['what']
+    if w == 'json_missing':
+        out = m.load_json(os.path.join(d, 'nope.json'))
+        return ('json', [[_key_canon(key), _canon(np, v)] for key, v in out.items()])
+    if w == 'json_empty':
+        p = os.path.join(d, 'empty.json')
+        open(p, 'w').close()
+        out = m.load_json(p)
+        return ('json', [[_key_canon(key), _canon(np, v)] for key, v in out.items()])
+    if w == 'tsv_missing':
+        out = m.read_tsv(os.path.join(d, 'nope.tsv'))
+        return ('rows', [[[key, _cell_canon(np, v)] for key, v in r.items()] for r in out])
+    if w == 'simple_missing':
+        out = m._read_tsv_simple(os.path.join(d, 'nope.tsv'))
+        if type(out) is dict and not out:
+            return ('emptydict',)
+        return ('other', type(out).__name__)
+    if w == 'python_missing':
+        out = m.read_python(os.path.join(d, 'nope.py'))
+        return ('python', [[_key_canon(key), _canon(np, v)] for key, v in out.items()])
+    if w == 'tsv_no_rows':
+        p = os.path.join(d, 'cluster_info.' + ('tsv' if i['delim'] == 'tab' else 'csv'))
+        m.write_tsv(p, [], first_field=i['first'], exclude_fields=tuple(i['excl']), n_significant_figures=i['n'])
+        out = m.read_tsv(p)
+        return ('rows', [[[key, _cell_canon(np, v)] for key, v in r.items()] for r in out])
+    if w == 'bigint':
+        z = (10 ** LIMIT + i['extra']) * (-1 if i['neg'] else 1)
+        if i['w'] == 0:
+            p = os.path.join(d, 'big.tsv')
+            m.write_tsv(p, [{'a': z, 'b': 1}])
+            out = m.read_tsv(p)
+            return ('rows', [[[key, _cell_canon(np, v)] for key, v in r.items()] for r in out])
+        if i['w'] == 1:
+            p = os.path.join(d, 'big.tsv')
+            m._write_tsv_simple(p, 'f', {1: z})
+            return ('other', repr(m._read_tsv_simple(p))[:40])
+        if i['w'] == 2:
+            p = os.path.join(d, 'big.py')
+            m.write_python(p, {'a': z})
+            return ('other', repr(m.read_python(p))[:40])
+        p = os.path.join(d, 'big.json')
+        m.save_json(p, {'a': z} if i['w'] == 3 else {z: 1})
+        return ('other', repr(m.load_json(p))[:40])
+    raise ValueError(w)
 
 
 # ---- encoding for Coq ---------------------------------------------------------------------------
@@ -731,10 +815,15 @@ def _value(c):
     return '(VStr %s)' % cs(c[1])
 
 
+def _zc(n):
+    # Coq parses a numeral of thousands of digits in tens of seconds, a string literal at once
+    return q.z(n) if abs(n) < 10 ** 300 else '(zbig %s %s)' % (q.b(n < 0), q.s(str(abs(n))))
+
+
 def _cell(c):
     t = c[0]
     if t == 'int':
-        return '(OInt %s)' % q.z(c[1])
+        return '(OInt %s)' % _zc(c[1])
     if t == 'float':
         return '(OFlt %s)' % _tok(c[1])
     if t == 'str':
@@ -751,7 +840,29 @@ def encode(case, obs):
     if obs[0] == 'harness':
         raise RuntimeError('harness could not materialise %r: %s' % (case, obs[1]))
     crash = obs[0] == 'crash'
-    if k == 'json':
+    if k == 'edge':
+        w = i['what']
+        if w == 'tsv_no_rows':
+            e = q.app('ETsvNoRows', _delim(i['delim']), q.opt(i['first'], cs), q.lst(i['excl'], cs), q.z(i['n']))
+        elif w == 'bigint':
+            # lim_bound = 10 ^ 4300 (C18/Lim.v), evaluated once
+            zt = '(lim_bound + %s)' % q.z(i['extra'])
+            e = q.app('EBigInt', q.z(i['w']), '(- %s)' % zt if i['neg'] else zt)
+        else:
+            e = {'json_missing': 'EJsonMissing', 'json_empty': 'EJsonEmpty', 'tsv_missing': 'ETsvMissing',
+                 'simple_missing': 'ESimpleMissing', 'python_missing': 'EPythonMissing'}[w]
+        cin = q.app('InEdge', e)
+        if crash:
+            cobs = 'ObsCrash'
+        elif obs[0] == 'json':
+            cobs = q.app('ObsJson', _top(obs[1]))
+        elif obs[0] == 'rows':
+            cobs = q.app('ObsRows', q.lst(obs[1], lambda r: q.lst(r, lambda kv: q.pair(cs(kv[0]), _cell(kv[1])))))
+        elif obs[0] == 'emptydict':
+            cobs = 'ObsEmptyDict'
+        else:   # a result of a type the model never predicts for an edge input
+            cobs = q.app('ObsNumber', 'ONaN')
+    elif k == 'json':
         cin = q.app('InJson', _top(i['items']))
         cobs = 'ObsCrash' if crash else q.app('ObsJson', _top(obs[1]))
     elif k == 'tsv':
@@ -800,6 +911,8 @@ def nontrivial(case, obs):
     if obs[0] == 'crash':
         return False
     k, i = case['kind'], case['inp']
+    if k == 'edge':
+        return False
     if k == 'json':
         return any(x[0] in ('arr', 'np', 'list', 'dict') for _, v in i['items'] for x in _walk(v))
     if k == 'tsv':
@@ -814,6 +927,10 @@ def nontrivial(case, obs):
 def dist(case, obs):
     k, i = case['kind'], case['inp']
     out = ['kind=' + k]
+    if k == 'edge':
+        out.append('edge=%s%s -> %s' % (i['what'], ('.%d' % i['w']) if 'w' in i else '',
+                                        obs[1] if obs[0] == 'crash' else obs[0]))
+        return out
     if obs[0] == 'crash':
         out.append('crash=' + obs[1])
         return out
@@ -854,6 +971,8 @@ def dist(case, obs):
         out.append('python.items=%s' % _bucket(len(i['items'])))
     else:
         out.append('number.class=' + obs[1][0])
+        if len(i['s']) > 300:
+            out.append('number.digits=%s' % ('>4300' if sum(ch.isdigit() for ch in i['s']) > LIMIT else '<=4300'))
     return out
 
 
